@@ -383,6 +383,7 @@ class Engine:
         from . import models
         self.models = models
         self.builtins = models.make_builtins(self)
+        models.CUR_ENGINE[0] = self
 
     # ------------------------------------------------------------------ repository loading
     def module(self, name):
@@ -446,6 +447,9 @@ class Engine:
             self.path.add(v >= lo)
         if hi is not None:
             self.path.add(v <= hi)
+        if lo == 0 and isinstance(hi, int) and hi > 0 and (hi & (hi + 1)) == 0:
+            from . import bitform as BF
+            BF.declare_source(self.path, v, hi.bit_length())
         return SInt(v)
 
     def fresh_bool(self, name):
@@ -460,6 +464,9 @@ class Engine:
         self.path.add(n >= minlen)
         if maxlen is not None:
             self.path.add(n <= maxlen)
+            if minlen == 0 and maxlen > 0 and (maxlen & (maxlen + 1)) == 0:
+                from . import bitform as BF
+                BF.declare_source(self.path, n, maxlen.bit_length())
         f = z3.Function(nm + '.at', z3.IntSort(), z3.IntSort())
         path = self.path
 
@@ -468,6 +475,8 @@ class Engine:
                 i = z3.IntVal(i)
             t = f(i)
             self.path.axiom(z3.And(t >= 0, t <= 255))
+            from . import bitform as BF
+            BF.declare_source(self.path, t, 8)
             return t
         return SBytes(n, at)
 
@@ -500,7 +509,8 @@ class Engine:
         if isinstance(v, int):
             return v != 0
         if isinstance(v, SInt):
-            return mk_bool(v.e != 0)
+            r = self.models.values_equal(self, v, 0)
+            return (not r) if isinstance(r, bool) else mk_bool(z3.Not(r.e))
         if isinstance(v, SReal):
             return mk_bool(v.e != 0)
         if isinstance(v, float):
